@@ -12,11 +12,11 @@ theorem apiSave_token (ctx : Ctx) (st : Store) (next : Nat) (data : Bytes) (time
     (h : apiSave ctx st next data timeout isNew onServer = .ok (st1, n1, cs, temp)) :
     (temp = ofNats Gen.cookiesSavePrefix ++ ctx.env.enc timeout data ∧ n1 = next) ∨
     (temp = UInt8.ofNat Gen.sidPrefix :: ctx.env.sidOf next ∧ n1 = next + 1) ∨
-    (temp = ctx.cookie ∧ (validSid ctx.cookie).isSome = true ∧ isNew = false ∧ n1 = next) := by
-  have sidCase : ∀ st1 n1 temp, sidSave ctx st next data timeout isNew = (st1, n1, temp) →
+    (temp = ctx.cookie ∧ (validSid ctx.cookie).isSome = true ∧ isNew = false ∧ n1 = next ∧ ctx.cfg.loc ≠ .client) := by
+  have sidCase : ∀ st1 n1 temp, sidSave ctx st next data timeout isNew = (st1, n1, temp) → ctx.cfg.loc ≠ .client →
       (temp = UInt8.ofNat Gen.sidPrefix :: ctx.env.sidOf next ∧ n1 = next + 1) ∨
-      (temp = ctx.cookie ∧ (validSid ctx.cookie).isSome = true ∧ isNew = false ∧ n1 = next) := by
-    intro st1 n1 temp hs
+      (temp = ctx.cookie ∧ (validSid ctx.cookie).isSome = true ∧ isNew = false ∧ n1 = next ∧ ctx.cfg.loc ≠ .client) := by
+    intro st1 n1 temp hs hloc
     simp only [sidSave] at hs
     cases hv : validSid ctx.cookie with
     | none => rw [hv] at hs; simp only [Prod.mk.injEq] at hs; obtain ⟨_, rfl, rfl⟩ := hs; exact Or.inl ⟨rfl, rfl⟩
@@ -27,13 +27,13 @@ theorem apiSave_token (ctx : Ctx) (st : Store) (next : Nat) (data : Bytes) (time
       | false =>
         simp only [Bool.false_eq_true, if_false, Prod.mk.injEq] at hs
         obtain ⟨_, rfl, rfl⟩ := hs
-        exact Or.inr ⟨(validSid_eq_cons hv).symm ▸ rfl, rfl, rfl, rfl⟩
+        exact Or.inr ⟨(validSid_eq_cons hv).symm ▸ rfl, rfl, rfl, rfl, hloc⟩
   rcases loc_cases ctx.cfg.loc with hl | hl | hl
   · simp only [apiSave, hl] at h
     rcases hs : sidSave ctx st next data timeout isNew with ⟨a, b, c⟩
     rw [hs] at h; simp only [Except.ok.injEq, Prod.mk.injEq] at h
     obtain ⟨_, rfl, _, rfl⟩ := h
-    exact Or.inr (sidCase _ _ _ hs)
+    exact Or.inr (sidCase _ _ _ hs (by rw [hl]; simp))
   · simp only [apiSave, hl, cookiesSave] at h
     cases onServer with
     | true => simp at h
@@ -47,7 +47,7 @@ theorem apiSave_token (ctx : Ctx) (st : Store) (next : Nat) (data : Bytes) (time
       rcases hs : sidSave ctx st next data timeout isNew with ⟨a, b, c⟩
       rw [hs] at h; simp only [Except.ok.injEq, Prod.mk.injEq] at h
       obtain ⟨_, rfl, _, rfl⟩ := h
-      exact Or.inr (sidCase _ _ _ hs)
+      exact Or.inr (sidCase _ _ _ hs (by rw [hl]; simp))
     · simp only [hsrv, cookiesSave] at h
       simp at h
       obtain ⟨_, rfl, _, rfl⟩ := h
@@ -58,7 +58,7 @@ theorem request_token_form (ctx : Ctx) (st : Store) (next : Nat) (ops : List Op)
     (h : (request ctx st next ops).saved = .ok (.written tok)) :
     (∃ to d, tok = 67 :: ctx.env.enc to d) ∨
     (tok = 73 :: ctx.env.sidOf next ∧ (request ctx st next ops).next = next + 1) ∨
-    (tok = ctx.cookie ∧ (validSid ctx.cookie).isSome = true ∧
+    (tok = ctx.cookie ∧ (validSid ctx.cookie).isSome = true ∧ ctx.cfg.loc ≠ .client ∧
       ∃ s0 st1 cs, siLoad ctx st = (.ok s0, st1, cs) ∧ newSession (applyOps ctx.cfg ctx.env s0 ops) = false ∧
         (applyOps ctx.cfg ctx.env s0 ops).data.isEmpty = false) := by
   rcases hL : siLoad ctx st with ⟨r, st1, cs⟩
@@ -95,15 +95,16 @@ theorem request_token_form (ctx : Ctx) (st : Store) (next : Nat) (ops : List Op)
                 rw [hap] at hS
                 simp only [Except.ok.injEq, Prod.mk.injEq, SaveKind.written.injEq] at hS
                 obtain ⟨_, rfl, _, rfl⟩ := hS
-                rcases apiSave_token ctx st1 next ar _ _ _ _ _ _ _ hap with ⟨h1, _⟩ | ⟨h1, h2⟩ | ⟨h1, h2, h3, _⟩
+                rcases apiSave_token ctx st1 next ar _ _ _ _ _ _ _ hap with ⟨h1, _⟩ | ⟨h1, h2⟩ | ⟨h1, h2, h3, _, h5⟩
                 · exact Or.inl ⟨_, _, h1⟩
                 · exact Or.inr (Or.inl ⟨h1, by rw [e3, h2]⟩)
-                · exact Or.inr (Or.inr ⟨h1, h2, s0, st1, cs, rfl, h3, by simpa using hem⟩)
+                · exact Or.inr (Or.inr ⟨h1, h2, h5, s0, st1, cs, rfl, h3, by simpa using hem⟩)
 
 /-! ## frame: tokens a request does not concern -/
 
-/-- identifiers from the entropy source never repeat -/
-def Fresh (env : Env) : Prop := ∀ m n, env.sidOf m = env.sidOf n → m = n
+/-- identifiers from the entropy source do not repeat among the first `bound` draws (there are only
+`16^32` strings of the issued form, so this cannot be asked of all draws) -/
+def Fresh (env : Env) (bound : Nat) : Prop := ∀ m n, m < bound → n < bound → env.sidOf m = env.sidOf n → m = n
 
 /-- what is known about a token when we ask whether a request can disturb it: it is a client-side cookie,
 or an identifier issued earlier, or a string the entropy source never produces (attacker-chosen) -/
@@ -165,7 +166,8 @@ theorem request_store_of_load_error (ctx : Ctx) (st : Store) (next : Nat) (ops :
 /-- **Frame.**  A request does not change what any *other* token denotes — neither another browser's
 session nor anything an attacker holds — from the request's instant on. -/
 theorem request_frame (ctx : Ctx) (st : Store) (next : Nat) (ops : List Op) (c2 : Bytes)
-    (he : EnvOK ctx.env) (hf : Fresh ctx.env) (hi : StoreInv ctx.env st next) (ha : Admissible ctx.env ctx.cookie)
+    (he : EnvOK ctx.env) (bound : Nat) (hf : Fresh ctx.env bound) (hb : (request ctx st next ops).next ≤ bound)
+    (hi : StoreInv ctx.env st next) (ha : Admissible ctx.env ctx.cookie)
     (hne : c2 ≠ ctx.cookie) (hk : TokKnown ctx.env next c2) (t : Int) (ht : ctx.now ≤ t) :
     SEq (Spec.alive t (absTok ctx.cfg ctx.env (request ctx st next ops).store.recs c2))
         (Spec.alive t (absTok ctx.cfg ctx.env st.recs c2)) := by
@@ -217,11 +219,11 @@ theorem request_frame (ctx : Ctx) (st : Store) (next : Nat) (ops : List Op) (c2 
           rw [apply_other _ _ _ _ _ _ hne (by
             intro _ _ _ _
             simp only [tokenOf]
-            rcases request_token_form ctx st next ops tok hk1 with ⟨to, d, rfl⟩ | ⟨rfl, _⟩ | ⟨rfl, _⟩
+            rcases request_token_form ctx st next ops tok hk1 with ⟨to, d, rfl⟩ | ⟨rfl, hn⟩ | ⟨rfl, _⟩
             · intro e; apply hnotC; rw [e]; rfl
             · rcases hk with ⟨m, hm, rfl⟩ | hk
               · intro e
-                have := hf m next (by simpa using e)
+                have := hf m next (by omega) (by omega) (by simpa using e)
                 omega
               · exact hk next
             · exact hne)] at this
